@@ -501,3 +501,13 @@ Definition fwdsb (i : nat) (l : list pev) : list (env * bool) :=
 (* an envelope is dropped only when the destination's buffer is full *)
 Definition drops_only_when_full (cap : nat) (l : list pev) : Prop :=
   forall pre j e i e' post, l = pre ++ EvFwd j e i e' false :: post -> occupancy i pre = cap.
+
+(* ---------- the server's side of the return route ---------- *)
+(* what a goat server answers to a request that reached it as e' (server.go processUnaryRpc / resetStream /
+   the stream writer): source and destination exchanged, the return route = all but the last hop of the request's
+   route record when that has more than one hop *)
+Definition reply_of (e' : env) (pay : Z) : env :=
+  mkEnv true (e_dst e') (e_src e') []
+        (if Nat.ltb 1 (length (e_rec e')) then Some (removelast (e_rec e')) else None) pay.
+(* tied to server.go by the rig (case kind CProxyReply: the real Server answering requests with route records of
+   0..4 hops - unary reply, error reply, RST_STREAM) on every run *)
